@@ -120,13 +120,18 @@ type Sim struct {
 	Log      []string
 	Notes    []string
 	probeSeq int
+	Live     bool // real tickers and receiveRoutines (trace-recording mode)
 }
 
 // New builds an N-validator system with the given powers; byz lists Byzantine validator indices (1-based).
 func New(dir string, powers []int64, byz []int, maxRound int64) (*Sim, error) {
+	return newSim(dir, powers, byz, maxRound, false)
+}
+
+func newSim(dir string, powers []int64, byz []int, maxRound int64, live bool) (*Sim, error) {
 	crypto.NodeInit(crypto.CryptoTypeZhongAn)
 	glog.SetLog(zap.NewNop())
-	s := &Sim{N: len(powers), Powers: powers, Byz: map[int]bool{}, Dir: dir, Nodes: map[int]*Node{}, MaxRound: maxRound,
+	s := &Sim{Live: live, N: len(powers), Powers: powers, Byz: map[int]bool{}, Dir: dir, Nodes: map[int]*Node{}, MaxRound: maxRound,
 		byHash: map[string]*Value{}, byParts: map[string]*Value{}, bySym: map[string]*Value{},
 		Ledger: map[string]pbft.ConsensusMessage{}, PartSize: 1 << 20}
 	for _, b := range byz {
@@ -193,6 +198,15 @@ func (s *Sim) boot(n *Node, first bool) error {
 	conf.Set("timeout_precommit_delta", 500)
 	conf.Set("timeout_commit", 1000)
 	conf.Set("skip_timeout_commit", false)
+	if s.Live {
+		conf.Set("timeout_propose", 120)
+		conf.Set("timeout_propose_delta", 40)
+		conf.Set("timeout_prevote", 60)
+		conf.Set("timeout_prevote_delta", 20)
+		conf.Set("timeout_precommit", 60)
+		conf.Set("timeout_precommit_delta", 20)
+		conf.Set("timeout_commit", 40)
+	}
 	conf.Set("block_size", 100)
 	conf.Set("block_part_size", s.PartSize)
 	conf.Set("db_backend", "leveldb")
@@ -255,7 +269,9 @@ func (s *Sim) boot(n *Node, first bool) error {
 	}
 	cs.SetPrivValidator(n.PrivVal)
 	cs.SetEventSwitch(evsw)
-	cs.SetTimeoutTicker(n.Ticker)
+	if !s.Live {
+		cs.SetTimeoutTicker(n.Ticker)
+	}
 	st.SetBlockExecutable(nopExec{})
 	st.SetBlockVerifier(cs)
 	n.CS = cs
